@@ -1,5 +1,6 @@
 import Proofs.C18
 import Proofs.C18Sem
+import Proofs.C18Idiom
 /-!
 # C18 — coverage instrumentation is transparent and its counts are exact
 
@@ -149,6 +150,96 @@ theorem transparent_rev (st : AnnState) (ss : Stmts) (hnf : Stmts.NF true ss = t
   obtain ⟨r, hr, he⟩ := (rev_sim fuel).stmts _ sc [] r0 [] rfl h _ (Nat.le_refl _)
   obtain ⟨g1, g2, g3⟩ := eraseRun_eq he
   exact ⟨r, hr, g1, g2, g3⟩
+
+/-! ## the for-in idioms: what `for (k in A) body` leaves behind, with and without counters (model `GoawkModel.C18Idiom`)
+
+State = the loop variable (unset or a key), a copy of it, the keys of two arrays, two counters, a string length, the log of the
+coverage counters; the order in which the keys are reached is a parameter. For every body, every order, every state. -/
+section Idioms
+open GoawkModel.C18.Idiom
+
+/-- Transparency on the observed state: the loop with counters anywhere in its body leaves the loop variable, both arrays, the
+counters and the string exactly as the loop without them does. -/
+theorem forin_counters_transparent (body : List BSt) (ks : List Key) (σ : St) :
+    vis (forIn body ks σ) = vis (forIn (eraseB body) ks σ) :=
+  forIn_erase body ks σ σ rfl
+
+/-- the shape the annotator produces: one counter in front of a counter-free body -/
+theorem forin_counter_at_head_transparent (c : Nat) (body : List BSt) (hb : noCover body = true) (ks : List Key) (σ : St) :
+    vis (forIn (.cover c :: body) ks σ) = vis (forIn body ks σ) := by
+  have h := forin_counters_transparent (.cover c :: body) ks σ
+  have e : eraseB (.cover c :: body) = body := by
+    have : eraseB (BSt.cover c :: body) = eraseB body := by simp [eraseB, isCover]
+    rw [this, eraseB_noCover body hb]
+  rw [e] at h; exact h
+
+/-- Exactness for the loop body's block: the counter fires once per time the ORIGINAL body began. -/
+theorem forin_count_exact (c : Nat) (body : List BSt) (hb : noCover body = true) (ks : List Key) (σ : St) :
+    (forIn (.cover c :: body) ks σ).cover = σ.cover ++ List.replicate (iterations body ks σ) c := by
+  have h := forIn_cover_log c body hb ks σ
+  have e : iterations (.cover c :: body) ks σ = iterations body ks σ := by
+    have := iterations_erase (.cover c :: body) ks σ σ rfl
+    have e2 : eraseB (BSt.cover c :: body) = body := by
+      have : eraseB (BSt.cover c :: body) = eraseB body := by simp [eraseB, isCover]
+      rw [this, eraseB_noCover body hb]
+    rw [e2] at this; exact this
+  rw [e] at h; exact h
+
+/-- Whatever the body (one `delete`, nothing at all, a counter and a `delete`, a `break`, …): after a loop over an array that holds
+at least one of the keys reached, the loop variable holds one of those keys. -/
+theorem forin_assigns_loop_variable (body : List BSt) (ks : List Key) (σ : St) (h : ∃ key ∈ ks, key ∈ σ.a) :
+    ∃ key ∈ ks, (forIn body ks σ).k = some key :=
+  forIn_k_of_nonempty body ks σ h
+
+/-- …and a loop over an array that holds none of them changes nothing (the variable stays unset if it was). -/
+theorem forin_over_nothing_changes_nothing (body : List BSt) (ks : List Key) (σ : St) (h : ∀ key ∈ ks, key ∉ σ.a) :
+    forIn body ks σ = σ :=
+  forIn_untouched body ks σ h
+
+/-- `for (k in A) delete A[k]` empties the array -/
+theorem delete_idiom_empties (ks : List Key) (σ : St) (h : ∀ key ∈ σ.a, key ∈ ks) : (forIn [.delOwn] ks σ).a = [] :=
+  forIn_delOwn_empties ks σ h
+
+/-- The delete-all idiom equals "walk the array with an empty body, then clear it" — the first site of the seeded change C18-q2 is
+exact as long as the empty loop is still walked… -/
+theorem delete_idiom_is_empty_loop_then_clear (ks : List Key) (σ : St) (hnd : ks.Nodup) (h : ∀ key ∈ σ.a, key ∈ ks) :
+    forIn [.delOwn] ks σ = clearOnly (forIn [] ks σ) := by
+  have h1 := emptyLoop_vs_delOwn ks σ σ hnd ⟨rfl, rfl, rfl, rfl, rfl, rfl, rfl⟩ (fun _ _ => Iff.rfl)
+  have h2 := forIn_delOwn_empties ks σ h
+  revert h1 h2
+  generalize forIn [.delOwn] ks σ = P
+  generalize forIn [] ks σ = Q
+  intro h1 h2
+  cases P; cases Q
+  simp only [restEq, clearOnly] at *
+  obtain ⟨a1, a2, a3, a4, a5, a6, a7⟩ := h1
+  subst a1 a2 a3 a4 a5 a6 a7 h2
+  rfl
+
+/-- …and no longer when it is skipped (the second site): clearing without walking leaves the loop variable unset, while the run
+with coverage — whose loop body is `__COVER[c]++; delete A[k]`, not the idiom — assigns it. The plain run and the covered run of
+such an implementation differ in what the program can see: coverage is not transparent. -/
+theorem clearing_without_walking_is_observable (c : Nat) (ks : List Key) (σ : St) (h : ∃ key ∈ ks, key ∈ σ.a) (hk : σ.k = none) :
+    vis (clearOnly σ) ≠ vis (forIn [.cover c, .delOwn] ks σ) := by
+  intro e
+  obtain ⟨key, _, hkey⟩ := forIn_k_of_nonempty [.cover c, .delOwn] ks σ h
+  have := ((vis_eq_iff _ _).1 e).1
+  rw [hkey] at this
+  simp [clearOnly, hk] at this
+
+-- non-vacuity: three keys reached in the order 2, 3, 1; the loop variable starts unset
+def sampleSt : St := ⟨none, none, [1, 2, 3], [1, 2, 3], 0, 0, 0, []⟩
+example : noCover [BSt.delOwn] = true := by decide
+example : ∃ key ∈ [2, 3, 1], key ∈ sampleSt.a := ⟨2, by decide, by decide⟩
+example : [2, 3, 1].Nodup ∧ ∀ key ∈ sampleSt.a, key ∈ [2, 3, 1] := by decide
+example : forIn [.delOwn] [2, 3, 1] sampleSt = { sampleSt with k := some 1, a := [] } := by decide
+example : forIn [.cover 7, .delOwn] [2, 3, 1] sampleSt = { sampleSt with k := some 1, a := [], cover := [7, 7, 7] } := by decide
+example : iterations [.delOwn] [2, 3, 1] sampleSt = 3 := by decide
+example : forIn [.ifBrk, .incM] [2, 3, 1] sampleSt = { sampleSt with k := some 3, n := 2, m := 1 } := by decide
+example : (clearOnly sampleSt).k = none ∧ (forIn [.cover 7, .delOwn] [2, 3, 1] sampleSt).k = some 1 := by decide
+example : ∀ key ∈ [2, 3, 1], key ∉ ({ sampleSt with a := [] } : St).a := by decide
+
+end Idioms
 
 /-! ## non-vacuity and instances -/
 
